@@ -116,18 +116,18 @@ func sxInt(x *sx) (*big.Int, bool) {
 // ---- building Go literals and pinning terms from model values
 
 type replayCtx struct {
-	ex      *Exec
-	pkg     *types.Package
-	imports map[string]string // path -> name
-	pins    []*Term
-	notes   []string
-	fail    string
-	needBig bool
-	needPtr bool
-	absVals map[string]int
+	ex        *Exec
+	pkg       *types.Package
+	imports   map[string]string // path -> name
+	pins      []*Term
+	notes     []string
+	fail      string
+	needBig   bool
+	needPtr   bool
+	absVals   map[string]int
 	absConsts []*Term
-	model   map[string]*sx
-	depth   int
+	model     map[string]*sx
+	depth     int
 }
 
 // objLit: &T{...} from the model's values of the object's fields (keys key.Field).
